@@ -97,7 +97,7 @@ CLAIMED.update({
             "in a coherent matrix every in-bounds (row,col) resolves to its own distinct live element. The machine is run operation by operation against the crate on random histories over the whole public "
             "alphabet with four element types, with an independent coherence probe and a drop/clone ledger inside the harness.",
             TB + " Drop/clone accounting is observed (ledger: live elements = sum of sizes after every operation, no double drop, nothing live at the end), not proved; "
-            "stated for element types that occupy memory; macro arms excluded from the theorem (covered by correspondence).", "DESIGN §7 C01"),
+            "stated for every element size incl. zero-sized types (es >= 0); for zero-sized types inputs with more than usize::MAX elements in total are excluded (Vec::extend panics there, which the model does not reproduce); macro arms excluded from the theorem (covered by correspondence).", "DESIGN §7 C01"),
 })
 CLAIMED.update({
     'C02': ("Rocq theorems over a free-monad fault model (snapshots at every caller-code call) + exhaustive fault enumeration against the crate",
